@@ -160,6 +160,10 @@ class Module:
         # Add it to our type-based containers, and return it.
         return _add(module=self, val=val)
 
+    def __copy__(self) -> "Module":
+        # A shallow copy would share our attribute tables - additions to either would be additions to both, elaborated or not.
+        raise TypeError(f"Cannot copy {self}: create a new Module instead")
+
     def get(self, name: str) -> Optional[ModuleAttr]:
         """Get module-attribute `name`. Returns `None` if not present.
         Note unlike Python built-ins such as `getattr`, `get` returns solely
